@@ -1,5 +1,6 @@
 from __future__ import annotations
 
+import itertools
 from abc import abstractmethod
 from dataclasses import dataclass, field
 from pathlib import Path
@@ -164,16 +165,23 @@ class ResultSet(dict[str, dict[Path, list[Result]]]):
         return list(self.keys())
 
     def __or__(self, other):
-        result = ResultSet(super().__or__(other))
-        for k in self.keys() | other.keys():
-            result[k] = list_dict_or(self[k], other[k])
+        result = self.__class__()
+        for k in itertools.chain(self, (k for k in other if k not in self)):
+            result[k] = list_dict_or(self.get(k, {}), other.get(k, {}))
         return result
+
+    def __ior__(self, other):
+        # dict.__ior__ would replace the findings of a rule present on both sides
+        merged = self | other
+        self.clear()
+        self.update(merged)
+        return self
 
 
 def list_dict_or(
     dictionary: dict[Any, list[Any]], other: dict[Any, list[Any]]
 ) -> dict[Path, list[Any]]:
-    result_dict = other | dictionary
-    for k in other.keys() | dictionary.keys():
-        result_dict[k] = dictionary[k] + other[k]
+    result_dict = {}
+    for k in itertools.chain(dictionary, (k for k in other if k not in dictionary)):
+        result_dict[k] = dictionary.get(k, []) + other.get(k, [])
     return result_dict
